@@ -121,7 +121,9 @@ def run_tlc(module, cfg=None, env=None, workers=1, timeout=600, extra=(), simula
         if res.exit == 124:
             raise MachineryError('TLC timed out after %ss on %s' % (timeout, module))
         if res.exit not in (0, 12, 13):
-            raise MachineryError('TLC exit %s on %s:\n%s' % (res.exit, module, res.stdout[-4000:]))
+            pos = res.stdout.find('Error:')
+            raise MachineryError('TLC exit %s on %s:\n%s' % (
+                res.exit, module, res.stdout[pos:pos + 2500] if pos >= 0 else res.stdout[-3000:]))
         return res
     finally:
         shutil.rmtree(work, ignore_errors=True)
